@@ -218,6 +218,9 @@ pub enum Mut {
     Header { field: u8, value: u64 },
     /// header field set relative to the real file length
     HeaderRel { field: u8, delta: i16 },
+    /// two header fields that lie consistently: the XML length is set to `xml_length` and the physical file length to
+    /// XML offset + `xml_length` + `slack`, so that the XML section still "fits into the file"
+    HeaderLengths { xml_length: u64, slack: u16 },
     /// section header field (1 length, 2 data offset, 3 index offset) set relative to the real file length
     SectionRel { nth: u8, field: u8, delta: i16 },
     /// every stream length of a data packet set to zero
@@ -362,7 +365,13 @@ pub fn gen_script(s: &mut Src) -> Script {
         muts.push(match s.weighted(&[3, 5, 5, 2, 2, 2, 3, 1, 1, 1, 4, 5, 2, 3, 1, 1, 1]) {
             0 => match s.weighted(&[3, 2, 1, 1, 1]) {
                 0 => Mut::Header { field: s.below(4) as u8, value: u64_pool(s, len_hint) },
-                1 => Mut::HeaderRel { field: s.below(3) as u8, delta: *s.pick(&[-1025i16, -1024, -1023, -5, -4, -3, -2, -1, 0, 1, 4, 1020, 1024]) },
+                1 => {
+                    if s.chance(1, 3) {
+                        Mut::HeaderLengths { xml_length: *s.pick(&[1u64 << 20, 11 << 20, 100 << 20, 900 << 20, 1 << 31, 1 << 40, 1 << 62, u64::MAX - 8192]), slack: *s.pick(&[0u16, 1, 1024, 4096]) }
+                    } else {
+                        Mut::HeaderRel { field: s.below(3) as u8, delta: *s.pick(&[-1025i16, -1024, -1023, -5, -4, -3, -2, -1, 0, 1, 4, 1020, 1024]) }
+                    }
+                }
                 2 => Mut::PacketZeroStreams { cloud: s.below(3) as u8, nth: s.below(4) as u8 },
                 3 => Mut::BlobInflate { nth: s.below(4) as u8, length: *s.pick(&[9999u64, 1 << 20, 1 << 40, u64::MAX - 16, u64::MAX]) },
                 _ => Mut::PacketChain { cloud: s.below(3) as u8, nth: s.below(4) as u8, step: s.below(3) as u8 },
@@ -525,6 +534,13 @@ fn attr_ranges(xml: &str, name: &str) -> Vec<(usize, usize)> {
 fn apply_mut(img: &mut Img, m: &Mut) {
     match m {
         Mut::Header { field, value } => put_u64(&mut img.log, 16 + 8 * (*field as usize % 4), *value),
+        Mut::HeaderLengths { xml_length, slack } => {
+            if img.log.len() >= 48 {
+                let off = u64::from_le_bytes(img.log[24..32].try_into().unwrap());
+                put_u64(&mut img.log, 32, *xml_length);
+                put_u64(&mut img.log, 16, off.saturating_add(*xml_length).saturating_add(*slack as u64));
+            }
+        }
         Mut::HeaderRel { field, delta } => {
             let phys = ((img.log.len() + 1019) / 1020 * 1024) as i128;
             put_u64(&mut img.log, 16 + 8 * (*field as usize % 4), (phys + *delta as i128).max(0) as u64);
